@@ -113,7 +113,7 @@ struct Cfg {
 const EACS: [&str; 4] = ["", "ECU1", ":AP1", "ECU2:AP2:CT2,ECU1::CT1"];
 
 fn cfg_json(c: &Cfg) -> Value {
-    let ffn = ["", "dlf", "dlt-convert", "dlf with marker+event filters", "dlf with a payload text that starts with a blank"][c.ffile];
+    let ffn = ["", "dlf", "dlt-convert", "dlf with marker+event filters", "dlf with a payload text that starts with a blank", "dlt-convert list of 1003 pairs (10 KB), the matching ones last"][c.ffile];
     let stn = ["-a", "-x", "-s", ""][c.style];
     json!({"family": "options", "b": c.b, "e": c.e, "lcs": c.lcs, "eac": EACS[c.eac], "eac_i": c.eac, "filter_file": ffn, "ffile": c.ffile,
         "sort": c.sort, "style": stn, "style_i": c.style, "o": c.out, "file_perm": c.perm, "dup_file_arg": c.dup, "o_target_exists": c.stale})
@@ -147,6 +147,8 @@ pub struct World {
     dlf_marker: String,
     dlf_blank: String,
     conv: String,
+    /// the same list behind 1000 pairs that match nothing (a file larger than any reader's default buffer)
+    conv_big: String,
 }
 
 fn trim4(b: &[u8; 4]) -> &[u8] {
@@ -207,7 +209,14 @@ impl World {
         let conv = format!("{dir}/f.txt");
         // third pair: a context id shorter than its application id
         std::fs::write(&conv, "AP2- CT1- AP1- CT2- AP1- C9-- ").expect("write conv");
-        World { dir, files, merged, lc, calc, dlf, dlf_marker, dlf_blank, conv }
+        let conv_big = format!("{dir}/fbig.txt");
+        let mut big = String::new();
+        for i in 0..1000 {
+            big.push_str(&format!("X{:03} Y{:03} ", i % 1000, i % 1000));
+        }
+        big.push_str("AP2- CT1- AP1- CT2- AP1- C9-- ");
+        std::fs::write(&conv_big, big).expect("write conv_big");
+        World { dir, files, merged, lc, calc, dlf, dlf_marker, dlf_blank, conv, conv_big }
     }
     /// positive filters (ecu, apid, ctid) and negative filters of a configuration
     fn keep(&self, c: &Cfg, m: &Gm) -> bool {
@@ -218,7 +227,7 @@ impl World {
                 pos.push((None, Some(b"AP1"), None));
                 neg.push((None, None, Some(b"CT2")));
             }
-            2 => {
+            2 | 5 => {
                 pos.push((None, Some(b"AP2"), Some(b"CT1")));
                 pos.push((None, Some(b"AP1"), Some(b"CT2")));
                 pos.push((None, Some(b"AP1"), Some(b"C9")));
@@ -305,6 +314,9 @@ fn run_cfg(w: &World, c: &Cfg, tag: u64) -> Vec<(String, String, String)> {
         }
         2 => {
             cmd.arg("-f").arg(&w.conv);
+        }
+        5 => {
+            cmd.arg("-f").arg(&w.conv_big);
         }
         4 => {
             cmd.arg("-f").arg(&w.dlf_blank);
@@ -481,6 +493,14 @@ fn configs(tier: Tier) -> Vec<Cfg> {
             }
         }
     }
+    // the long dlt-convert list: small product
+    for &eac in &eacs {
+        for &sort in &sorts {
+            for (style, out) in [(0usize, false), (3, true)] {
+                v.push(Cfg { b: None, e: None, lcs: None, eac, ffile: 5, sort, style, out, perm: 0, dup: false, stale: false });
+            }
+        }
+    }
     // the same file named twice (dedup by canonical content/time), small product
     for &eac in &eacs {
         for &sort in &sorts {
@@ -504,7 +524,7 @@ impl Prop for C14 {
             assumptions: vec!["one generated input set (20 messages, 4 files); lifecycle ids of the CLI are assumed to count from 1 in creation order in a fresh process".into()],
             budget_s: (150, 1500),
             workers: 1,
-            required_landmarks: vec!["window", "lcs", "eac", "ffile_dlf", "ffile_conv", "ffile_dlf_marker", "ffile_dlf_blank_payload", "sort", "o_file", "o_target_exists", "perm", "empty_selection", "nonempty_selection", "export_twice", "large_input", "file_order_ties"],
+            required_landmarks: vec!["window", "lcs", "eac", "ffile_dlf", "ffile_conv", "ffile_dlf_marker", "ffile_dlf_blank_payload", "ffile_conv_long", "sort", "o_file", "o_target_exists", "perm", "empty_selection", "nonempty_selection", "export_twice", "large_input", "file_order_ties"],
         }
     }
     fn prepare(&self, _t: Tier) -> Result<(), String> {
@@ -554,7 +574,7 @@ impl Prop for C14 {
         for (_, c, v) in res {
             ctx.mine();
             let exp = w.expected(&c);
-            for (flag, name) in [(c.b.is_some() || c.e.is_some(), "window"), (c.lcs.is_some(), "lcs"), (c.eac > 0, "eac"), (c.ffile == 1, "ffile_dlf"), (c.ffile == 2, "ffile_conv"), (c.ffile == 3, "ffile_dlf_marker"), (c.ffile == 4, "ffile_dlf_blank_payload"), (c.sort, "sort"), (c.out, "o_file"), (c.stale, "o_target_exists"), (c.perm > 0, "perm"), (exp.is_empty(), "empty_selection"), (!exp.is_empty(), "nonempty_selection")] {
+            for (flag, name) in [(c.b.is_some() || c.e.is_some(), "window"), (c.lcs.is_some(), "lcs"), (c.eac > 0, "eac"), (c.ffile == 1, "ffile_dlf"), (c.ffile == 2, "ffile_conv"), (c.ffile == 3, "ffile_dlf_marker"), (c.ffile == 4, "ffile_dlf_blank_payload"), (c.ffile == 5, "ffile_conv_long"), (c.sort, "sort"), (c.out, "o_file"), (c.stale, "o_target_exists"), (c.perm > 0, "perm"), (exp.is_empty(), "empty_selection"), (!exp.is_empty(), "nonempty_selection")] {
                 if flag {
                     ctx.landmark(name);
                 }
